@@ -153,6 +153,15 @@ def _check(ctx, rows, tpath, tag, match_cfg=None, tm=False):
     for m in re.finditer(r'<<"BAD", (\d+), (\d+), "(\w+)">>', res["out"]):
         i, p, kind = int(m.group(1)), int(m.group(2)), m.group(3)
         row = rows[i - 1]
+        if kind == "panic":
+            bad = [o for o in row["out"] if o["panic"] or o["hang"]][0]
+            vec = {"members": row["in"]["members"], "latest": row["in"]["latest"]}
+            P = len(row["in"]["perms"])
+            fails.append({"kind": kind, "vector": vec, "perm": 1, "tm": tm,
+                          "sig": ("hang" if bad["hang"] else "panic") + "@batch-or-member" + ("@tendermintrpc" if tm else ""),
+                          "out": bad, "first": row["out"][0], "order": row["in"]["members"],
+                          "singles": row["out"][2 * P:2 * P + len(row["in"]["members"])]})
+            continue
         if kind == "bind":
             bad = [o for o in row["out"] if o["err"] or o["panic"] or o["hang"]]
             raise vlib.Infra("binding: vector %s: a rendered request did not parse as intended: %s" % (
@@ -181,6 +190,9 @@ def _validate(ctx, vectors, tag, tm=False):
 
 def _describe(f):
     o, s = f["out"], f["singles"]
+    if f["kind"] == "panic":
+        return "batch [%s] latest=%d: the real ParseMsg %s on the batch or on a member parsed alone: %s" % (
+            _shape(f["vector"]["members"]), f["vector"]["latest"], "hung" if o.get("hang") else "panicked", o.get("panics"))
     return ("batch [%s] latest=%d parsed as order [%s]: summary (latest=%s, earliest=%s, archive=%s, cu=%s); "
             "first order gives (latest=%s, earliest=%s, archive=%s); members alone need archive: %s" % (
                 _shape(f["vector"]["members"]), f["vector"]["latest"], _shape(f["order"]),
@@ -222,7 +234,7 @@ def run(ctx):
                         "a summarised latest that is a non-earliest tag (latest/pending/safe/finalized/n-a) is an open upper bound"]
     fails, rows, nb = _validate(ctx, vectors, "grid")
     ctx.cov["distinct_orders_parsed"] = nb
-    if ctx.cov["real_batches_archive"] == 0:
+    if ctx.cov["real_batches_archive"] == 0 and not fails:
         raise vlib.Infra("no batch was ever marked archive by the real parser (dead binding)")
     # drift-only: which model variant does the code follow?  (sub-sample of the recorded lines)
     sub = rows[::ctx.pick(3, 11)]
@@ -247,7 +259,7 @@ def run(ctx):
     before = ctx.cov["real_batches_archive"]
     tfails, trows, tnb = _validate(ctx, tvectors, "tmgrid", tm=True)
     ctx.cov["tendermint_orders_parsed"] = tnb
-    if ctx.cov["real_batches_archive"] == before:
+    if ctx.cov["real_batches_archive"] == before and not tfails:
         raise vlib.Infra("no tendermint batch was ever marked archive by the real parser (dead binding)")
     tsub = trows[::ctx.pick(3, 11)]
     tspath = os.path.join(ctx.work, "tmdrift_trace.ndjson")
